@@ -3,15 +3,19 @@
 EXTENDS Integers, Sequences, TLC, Json
 CONSTANT Tier
 VARIABLES p, done
-OpsOf(k) == CASE k = "image" -> {"Hash", "Bytes", "Open", "Signatures", "VerifyA", "VerifyB"}
+OpsOf(k) == CASE k = "image" -> {"Hash", "Bytes", "Open", "OpenCopy", "Signatures", "VerifyA", "VerifyB"}
               [] k = "db" -> {"Bytes", "Marshal", "QueryHash", "QueryCert", "QueryAbsent", "ExistsList"}
               [] k = "update" -> {"Marshal", "Bytes"}
               [] k = "descriptor" -> {"Marshal", "VerifyA"}
 Objs == {<<"image", "signed">>, <<"image", "unsigned">>, <<"image", "twosigs">>, <<"image", "badsigs">>, <<"image", "unaligned">>, <<"db", "mixed">>, <<"db", "decoded">>, <<"db", "sparse">>, <<"db", "big">>, <<"update", "db">>, <<"descriptor", "db">>}
 SeqLen == IF Tier = "q" THEN 2 ELSE 3
 Seqs(S) == UNION {[1..n -> S] : n \in 1..SeqLen}
+(* an image of more than 3 MiB: a few programs only (each operation reads all of it) *)
+LargeOps == {"Hash", "VerifyA", "OpenCopy"}
 Init == /\ done = FALSE
-        /\ \/ \E o \in Objs : \E s \in Seqs(OpsOf(o[1])) : p = [mode |-> "seq", kind |-> o[1], variant |-> o[2], ops |-> s, g |-> 1]
+        /\ \/ \E s \in Seqs(LargeOps) : p = [mode |-> "seq", kind |-> "image", variant |-> "large", ops |-> s, g |-> 1]
+           \/ \E a \in LargeOps, b \in LargeOps : p = [mode |-> "par", kind |-> "image", variant |-> "large", ops |-> <<a, b>>, g |-> 2]
+           \/ \E o \in Objs : \E s \in Seqs(OpsOf(o[1])) : p = [mode |-> "seq", kind |-> o[1], variant |-> o[2], ops |-> s, g |-> 1]
            \/ \E o \in Objs : \E a \in OpsOf(o[1]), b \in OpsOf(o[1]), g \in (IF Tier = "q" THEN {2, 16} ELSE {2, 3, 4, 8, 16}) :
                  p = [mode |-> "par", kind |-> o[1], variant |-> o[2], ops |-> <<a, b>>, g |-> g]
 Next == ~done /\ done' = TRUE /\ UNCHANGED p
